@@ -40,7 +40,7 @@ func NewUnpackInfo(dst string, header *tar.Header) (UnpackInfo, error) {
 
 	// Check for paths outside our directory, they are forbidden
 	target := filepath.Clean(path)
-	if !strings.HasPrefix(target, dst) {
+	if !isWithin(dst, target) {
 		return UnpackInfo{}, errors.New("invalid filename, traversal with \"..\" outside of current directory")
 	}
 
@@ -88,6 +88,21 @@ func NewUnpackInfo(dst string, header *tar.Header) (UnpackInfo, error) {
 	}
 
 	return result, nil
+}
+
+// isWithin reports whether the cleaned path target is the directory root
+// itself or lies below it. The comparison is made on whole path segments, so
+// a sibling whose name merely starts with root's name ("/dst-evil" for
+// "/dst") is not within root.
+func isWithin(root, target string) bool {
+	root = filepath.Clean(root)
+	if target == root {
+		return true
+	}
+	if !strings.HasSuffix(root, string(filepath.Separator)) {
+		root += string(filepath.Separator)
+	}
+	return strings.HasPrefix(target, root)
 }
 
 // IsSymlink describes whether the file being unpacked is a symlink
